@@ -36,6 +36,11 @@ def ObjSort(cls):
         _obj_sorts[cls] = z3.DeclareSort('Obj_' + cls)
     return _obj_sorts[cls]
 
+# a binary combinator of callables passed around as a value (functools.reduce(plus, fs)): comb2(c, f, g) is the callable c(f, g)
+CombS = z3.DeclareSort('Comb')
+comb2 = z3.Function('comb2', CombS, Fn, Fn, Fn)
+def comb_const(file, qualname): return z3.Const('comb:%s::%s' % (file, qualname), CombS)
+
 # application of a callable, and "this evaluation raises"
 app = z3.Function('app', Fn, RealS, RealS)
 raises = z3.Function('raises', Fn, RealS, BoolS)
